@@ -316,6 +316,9 @@ DecideCreate(g, kind, epicArg, title, body, id, ts) ==
   ELSE IF kind = "task" /\ epicArg # "" /\
           (IF "D4" \in Dev THEN g.items[epicArg].epic # "" ELSE g.items[epicArg].kind # "epic")
        THEN Fail("not an epic")
+  ELSE IF kind = "task" /\ epicArg # "" /\ "D10" \notin Dev /\
+          ~WaitsAcyclic(Apply(g, EvNew("task", id, epicArg, "todo", title, body, ts)))
+       THEN Fail("would deadlock")       \* tasks of epics depending on this epic wait for the new child too
   ELSE Ok(<<EvNew(kind, id, IF kind = "epic" THEN "" ELSE epicArg, "todo", title, body, ts)>>,
           [id |-> id, state |-> "todo", epic |-> IF kind = "epic" THEN "" ELSE epicArg])
 
